@@ -159,7 +159,7 @@ PROPS["C08"] = {
 }
 
 RULES["C09"] = ("fault points: workflow in {factory, poweron, period} x {sequential, parallel} and single-shot; failure kind in {io.EOF, io.ErrUnexpectedEOF, custom error, error returned with a partial read, "
-                "transient error followed by more data, an error of its own concrete type followed by io.EOF, a one-off error returned together with a partial read, an *os.PathError (EIO) on every Read, io.EOF followed by *os.PathError, a never-ending error that claims Temporary() == true}; offset enumerated: SingleDetect every offset for numByte in {16,40,1280}; periodic workflows every sample boundary -1/0/+1, first/last three offsets, two interior ones; "
+                "transient error followed by more data, an error of its own concrete type followed by io.EOF, a one-off error returned together with a partial read, an *os.PathError (EIO) on every Read, io.EOF followed by *os.PathError, and (deterministic shard) a failing Read that itself takes 35 s to return, a never-ending error that claims Temporary() == true}; offset enumerated: SingleDetect every offset for numByte in {16,40,1280}; periodic workflows every sample boundary -1/0/+1, first/last three offsets, two interior ones; "
                 "10^6-bit workflows offsets {0,1,mid-sample,sample-1,sample,sample+1} (thorough: also deep/last-sample offsets); plus rapid-drawn offsets, read-delay plans and GOMAXPROCS for the parallel variants. "
                 "oracle: returns (false, err != nil); 'returns' is decided by a quiescence detector (three consecutive 100 ms snapshots in which every goroutine with a library frame is parked on a channel/semaphore/mutex) "
                 "not by a stopwatch (a workflow that is still reading after 10^6 failed Reads of a permanently failing source is judged a livelock); afterwards the library goroutines drain back to the baseline. non-trivial: at least one full sample was delivered before the failure (single-shot: offset > 0). distinct: hash of the case JSON.")
@@ -168,8 +168,8 @@ PROPS["C09"] = {
     "quick": [S("TestC09Enum", mode="single", floor=1000)] + [S("TestC09Enum", mode="period", floor=50, env={"VERIF_PART": i, "VERIF_PARTS": 4}) for i in range(4)]
              + [S("TestC09Enum", mode="big", floor=5, env={"VERIF_PART": i, "VERIF_PARTS": 6}, weight=2) for i in range(6)]
              + [S("TestC09", 150, mode="period", floor=50), S("TestC09", 150, mode="period", cpus="0-1", floor=50), S("TestC09", 400, mode="single", floor=100)]
-             + [S("TestC09", 60, mode="period", race=True, floor=20, weight=2)],
-    "thorough": [S("TestC09Enum", mode="single", floor=1000)] + [S("TestC09Enum", mode="period", floor=50, env={"VERIF_PART": i, "VERIF_PARTS": 4}) for i in range(4)]
+             + [S("TestC09", 60, mode="period", race=True, floor=20, weight=2), S("TestC09SlowFail", floor=2)],
+    "thorough": [S("TestC09SlowFail", floor=5, timeout=3400), S("TestC09Enum", mode="single", floor=1000)] + [S("TestC09Enum", mode="period", floor=50, env={"VERIF_PART": i, "VERIF_PARTS": 4}) for i in range(4)]
              + [S("TestC09Enum", mode="big", floor=5, env={"VERIF_PART": i, "VERIF_PARTS": 6}, weight=2) for i in range(6)]
              + [S("TestC09", 10000, mode="period", cpus=c, floor=2500, timeout=3400) for c in _CPUS] + [S("TestC09", 50000, mode="single", floor=10000)]
              + [S("TestC09", 20, mode="poweron", floor=6, weight=3, timeout=3400), S("TestC09", 12, mode="factory", floor=4, weight=3, timeout=3400)]
